@@ -626,7 +626,9 @@ def main():
     os.makedirs(evdir, exist_ok=True)
     with open(os.path.join(evdir, pid + '.json'), 'w') as fh:
         json.dump(ev, fh, indent=1)
-    if rc == 0:
+    if rc == 0 and proof_undecided:
+        print('OK-BOUNDED property=%s obligations=%d discharged-by-proof=%d; the rest of the cone is covered by the bounded stand-in only (evidence level: exploration)' % (pid, n_ob, n_discharged))
+    elif rc == 0:
         print('OK property=%s obligations=%d discharged=%d functions=%d assumed=%d' % (pid, n_ob, n_ob - n_failed, len(cone_fns), len(assumed)))
     return rc
 
